@@ -6,8 +6,9 @@
    undoes binding iff unitary") the unbind maps return y exactly when x is
    unitary: VTB-left  sqrt(s) W^T X on (x, sqrt(s) X Y^T) = s Y X^T X;
    TVTB-left sqrt(s) X^T W on (x, sqrt(s) X Y) = s X^T X Y.
-   The HRR network (DFT tables) is not executable over a ring: it is tied on the
-   complete basis of every tested d (PARTIAL: per-d, not for all d). *)
+   The HRR network is proved for every d over the complex numbers of any real closed
+   field (tables from a primitive d-th root of unity w); that the code's tables are those
+   of the proved shape is tied per tested d (structure of the three matrices + complete basis). *)
 From mathcomp Require Import all_ssreflect all_algebra.
 From NSpa Require Import Model.Vec Model.Hrr Model.Vtb Model.Algebra Model.Nets
   Theory.SeqSum Theory.MxBridge Theory.VtbLaws Theory.NetsLaws.
@@ -84,3 +85,32 @@ Theorem C05_tvtb_network_unbind_left :
                mx_of s c = (mx_of s left)^T *m mx_of s right.
 Proof. first [exact: tvtb_net_unbind_left | by move=> *; exact: tvtb_net_unbind_left | by intros; eapply tvtb_net_unbind_left; eauto]. Qed.
 Print Assumptions C05_tvtb_network_unbind_left.
+
+(* ---------------- HRR: the CircularConvolution network, for every d ------------------------------ *)
+From mathcomp Require Import complex.
+From NSpa Require Import Theory.Fourier Theory.HrrNet.
+
+(* half-spectrum products of real / imaginary parts with weights 1 (k = 0, 2k = d) and 2, recombined with
+   the rows of the inverse transform, compute circular convolution *)
+Theorem C05_hrr_network_computes_circular_convolution :
+  forall (R : rcfType) p (w : R[i]),
+    w ^+ p.+1 = 1 -> w * conjc w = 1 ->
+    (forall j : 'I_p.+1, j != 0 -> \sum_k chi w k j = 0) ->
+    forall (a b : seq R) (m : 'I_p.+1), size a = p.+1 ->
+    cconv_net p w a b m = vnth (hrr_bind_core a b) m.
+Proof. first [exact: cconv_net_is_binding | by move=> *; exact: cconv_net_is_binding | by intros; eapply cconv_net_is_binding; eauto]. Qed.
+Print Assumptions C05_hrr_network_computes_circular_convolution.
+
+(* the rows remove_imag_rows deletes multiply quantities that vanish identically *)
+Theorem C05_hrr_network_removed_rows_vanish :
+  forall (R : rcfType) p (w : R[i]), w ^+ p.+1 = 1 ->
+    forall (a : seq R), half_im p w a 0 = 0 /\ (forall k, (2 * k = p.+1)%N -> half_im p w a k = 0).
+Proof. by move=> R p w wd a; split; [exact: half_im_dc | move=> k; exact: half_im_nyquist]. Qed.
+Print Assumptions C05_hrr_network_removed_rows_vanish.
+
+(* non-vacuity: d = 2, w = -1 *)
+Theorem C05_hrr_network_hypotheses_met :
+  forall (R : rcfType), let w : R[i] := -1 in
+    w ^+ 2 = 1 /\ w * conjc w = 1 /\ (forall j : 'I_2, j != 0 -> \sum_k chi w k j = 0).
+Proof. first [exact: hyps_d2 | by move=> *; exact: hyps_d2 | by intros; eapply hyps_d2; eauto]. Qed.
+Print Assumptions C05_hrr_network_hypotheses_met.
